@@ -18,16 +18,24 @@
 (*  must show Views (canonical defaults) and satisfy the view laws, and a  *)
 (*  rejection of a file without listed defect is not judged.               *)
 (***************************************************************************)
-EXTENDS SchemaInject, SchemaViews
+EXTENDS SchemaValid, SchemaViews
 
 Range(seq) == {seq[i] : i \in 1..Len(seq)}
 
 FileOf(e) == IF e.op = "linked" THEN e.out.file ELSE e.file
 
+\* filedesc.Builder is specified for descriptor protos as protoc writes them: references fully qualified, types and labels given
+AbsOrEmpty(s) == s = "" \/ IsAbsolute(s)
+BuilderDomain(f) ==
+  /\ \A i \in 1..Len(f.msgs) : \A j \in 1..Len(f.msgs[i].fields) :
+        LET x == f.msgs[i].fields[j] IN AbsOrEmpty(x.tname) /\ x.type # 0 /\ x.label # 0
+  /\ \A i \in 1..Len(f.exts) : AbsOrEmpty(f.exts[i].tname) /\ AbsOrEmpty(f.exts[i].extendee) /\ f.exts[i].type # 0 /\ f.exts[i].label # 0
+  /\ \A i \in 1..Len(f.svcs) : \A j \in 1..Len(f.svcs[i].methods) : AbsOrEmpty(f.svcs[i].methods[j].in) /\ AbsOrEmpty(f.svcs[i].methods[j].out)
+
 \* expectation for an accepted file, restricted to the wanted keys
-Accepted(f, allow, want) ==
+AcceptedExp(f, allow, want) ==
   LET v == Views(f, allow) IN
-  [k \in want \cap {"ok", "snap", "back", "rt", "nsame", "bsnap", "bsame", "blazy"} |->
+  [k \in want \cap ({"ok", "snap", "back", "rt", "nsame"} \cup (IF BuilderDomain(f) THEN {"bsnap", "bsame", "blazy"} ELSE {})) |->
      CASE k = "ok" -> TRUE
        [] k = "snap" -> v
        [] k = "bsnap" -> v
@@ -37,7 +45,7 @@ Accepted(f, allow, want) ==
 Expect(e) ==
   CASE e.op \in {"file", "linked"} ->
          LET f == FileOf(e) IN
-         IF Defects(f, e.allow) = {} THEN Accepted(f, e.allow, Range(e.want) \cup {"ok"}) ELSE [ok |-> FALSE]
+         IF Defects(f, e.allow) = {} THEN AcceptedExp(f, e.allow, Range(e.want) \cup {"ok"}) ELSE [ok |-> FALSE]
     [] e.op = "defaults" ->
          [ef |-> EditionDefaults(e.edition), bef |-> EditionDefaults(e.edition)]
     [] OTHER -> [unknown_op |-> TRUE]
@@ -47,11 +55,13 @@ AgreeWith(e, x) == \A k \in DOMAIN x : k \in DOMAIN e.out /\ e.out[k] = x[k]
 \* the runtime-relevant semantics of a message type: everything wire / JSON / text behaviour can depend on (C38).
 \* A proto2 / proto3 type and its editions translation must have the same semantics; names of the types
 \* themselves, declaration order and the way the semantics is spelled (keywords vs features) are not part of it.
-SemField(s) == [num |-> s.num, name |-> s.name, json |-> s.json, text |-> s.text, kind |-> s.kind, card |-> s.card,
-                presence |-> s.presence, packed |-> s.packed, list |-> s.list, map |-> s.map, utf8 |-> s.effutf8,
-                oneof |-> s.realoneof, hd |-> s.hd, def |-> s.def, msg |-> s.msgidx,
-                enumclosed |-> s.enumclosed, enumnums |-> s.enumnums]
-SemMsg(m) == [fields |-> Map(m.fields, SemField), xr |-> m.xr, req |-> m.req]
+SemField(s, strict) ==
+  [num |-> s.num, name |-> s.name, json |-> s.json, text |-> s.text, kind |-> s.kind, card |-> s.card,
+   presence |-> s.presence, list |-> s.list, map |-> s.map, oneof |-> s.realoneof, hd |-> s.hd, def |-> s.def, msg |-> s.msgidx,
+   enumclosed |-> s.enumclosed, enumnums |-> s.enumnums,
+   \* the wire form of repeated scalars and UTF-8 validation of strings: part of the semantics of an exact translation only
+   packed |-> strict /\ s.packed, utf8 |-> strict /\ s.kind = KString /\ s.effutf8]
+SemMsg(m, strict) == [fields |-> Map(m.fields, LAMBDA s : SemField(s, strict)), xr |-> m.xr, req |-> m.req]
 
 Agree(e) ==
   CASE e.op \in {"file", "linked"} ->
@@ -62,14 +72,21 @@ Agree(e) ==
             ELSE IF Defects(f, e.allow) # {} THEN e.out.ok = FALSE
             ELSE IF mode = "mutant" THEN
                    (e.out.ok => /\ ("snap" \in DOMAIN e.out => ViewLaws(e.out.snap))
-                                /\ (CanonicalDefaults(f) => AgreeWith(e, Accepted(f, e.allow, Range(e.want)))))
-            ELSE /\ AgreeWith(e, Accepted(f, e.allow, Range(e.want) \cup {"ok"}))
+                                /\ (CanonicalDefaults(f) => AgreeWith(e, AcceptedExp(f, e.allow, Range(e.want)))))
+            ELSE /\ AgreeWith(e, AcceptedExp(f, e.allow, Range(e.want) \cup {"ok"}))
                  /\ ("snap" \in DOMAIN e.out => ViewLaws(e.out.snap))
     [] e.op = "fuzz" -> /\ "panic" \notin DOMAIN e.out
                         /\ \A k \in {"snap1", "snap2"} : k \in DOMAIN e.out => ViewLaws(e.out[k])
     [] e.op = "pairschema" -> /\ "panic" \notin DOMAIN e.out
-                              /\ Map(e.out.a, SemMsg) = Map(e.out.b, SemMsg)
+                              /\ Map(e.out.a, LAMBDA m : SemMsg(m, e.strict)) = Map(e.out.b, LAMBDA m : SemMsg(m, e.strict))
     [] e.op = "pair" -> /\ "panic" \notin DOMAIN e.out /\ "panic" \notin DOMAIN e.out.a /\ "panic" \notin DOMAIN e.out.b
-                        /\ e.out.a = e.out.b
+                        /\ LET a == e.out.a  b == e.out.b IN
+                           IF e.strict THEN a = b /\ e.out.cross
+                           \* not an exact translation (packing, UTF-8 validation differ): equal content, JSON and verdicts up to UTF-8
+                           ELSE IF a.ok /\ b.ok THEN /\ e.out.cross /\ a.jsonok = b.jsonok /\ a.init = b.init
+                                                     /\ (a.jsonok => a.json = b.json /\ a.jsonrt = b.jsonrt)
+                                                     /\ a.textok = b.textok /\ (a.textok => a.textrt = b.textrt)
+                           ELSE IF a.ok # b.ok THEN (IF a.ok THEN b.utf8err ELSE a.utf8err)
+                           ELSE TRUE
     [] OTHER -> AgreeWith(e, Expect(e))
 =============================================================================
